@@ -22,18 +22,29 @@ def importKind {V : Type} (keyOf : V → String) (l : List V) : AMap String V :=
 
 /-- record kinds each module's genesis carries: (module, kinds exported and re-imported) -/
 def exportedKinds : List (String × List String) :=
-  [("storage", ["FilesByMerkle", "FilesByOwner", "Providers", "StoragePaymentInfo", "Collateral",
+  [("storage", ["FilesByMerkle", "FilesByOwner", "FileProof", "Providers", "StoragePaymentInfo", "Collateral",
                 "Attestation", "Report", "PaymentGauge", "Params"]),
-   ("rns", ["Whois", "Names", "Bids", "Forsale", "Init", "Params"]),
+   ("rns", ["Whois", "Names", "Bids", "Forsale", "Init", "PrimaryName", "Params"]),
    ("filetree", ["Files", "Pubkey", "Params"]),
    ("oracle", ["Feed", "Params"]),
-   ("notification", ["Notification", "Params"]),
+   ("notification", ["Notification", "Block", "Params"]),
    ("jklmint", ["Params"])]
 
-/-- kinds the keepers write that no genesis carries (each one is a recorded finding) -/
-def omittedKinds : List (String × List String) :=
-  [("storage", ["FileProof"]), ("rns", ["PrimaryName"]), ("notification", ["Block"]),
-   ("jklmint", ["MintedBlock"])]
+/-- kinds the keepers write that no genesis carries (each one would be a recorded finding; four
+were repaired: storage FileProof, rns PrimaryName, notifications Block — now carried — and the
+jklmint emission record, now carried for the last block) -/
+def omittedKinds : List (String × List String) := []
+
+/-- kinds of which the genesis carries the newest record only (one record per block height; the
+export carries the record of the last block, which is the one the next block reads): the older
+records are lost — a recorded finding -/
+def latestOnlyKinds : List (String × List String) := [("jklmint", ["MintedBlock"])]
+
+/-- `ExportGenesis` of a latest-only kind: the record of the last height, if there is one -/
+def exportLatest {V : Type} (m : AMap String V) (lastKey : String) : List V :=
+  match AMap.get m lastKey with
+  | some v => [v]
+  | none => []
 
 /-- kinds written only by `InitGenesis` from a list that `ExportGenesis` recomputes (never read
 back by the keepers): they may appear after an import without having been there before -/
@@ -42,11 +53,20 @@ def derivedKinds : List (String × List String) := [("storage", ["ActiveProvider
 def lookup (t : List (String × List String)) (m : String) : List String :=
   ((t.find? (·.1 == m)).map (·.2)).getD []
 
-/-- what the model predicts for one (module, kind) after export → validate → import:
-`some true` = preserved exactly, `some false` = lost entirely, `none` = no prediction (derived) -/
-def predict (module kind : String) : Option Bool :=
-  if (lookup exportedKinds module).contains kind then some true
-  else if (lookup omittedKinds module).contains kind then some false
-  else none
+inductive Fate where
+  | preserved      -- every record survives unchanged
+  | lost           -- no record survives
+  | latestOnly     -- exactly the newest record survives (when there is one)
+  | derived        -- recomputed by the import: no prediction
+  | unknown        -- a record kind the table does not know
+  deriving DecidableEq, Repr
+
+/-- what the model predicts for one (module, kind) after export → validate → import -/
+def predict (module kind : String) : Fate :=
+  if (lookup exportedKinds module).contains kind then .preserved
+  else if (lookup omittedKinds module).contains kind then .lost
+  else if (lookup latestOnlyKinds module).contains kind then .latestOnly
+  else if (lookup derivedKinds module).contains kind then .derived
+  else .unknown
 
 end Canine.Genesis
